@@ -25,7 +25,7 @@ func enumerate(tier string) []caseT {
 	for i := range ps {
 		p := &ps[i]
 		for it, item := range p.items {
-			for _, mode := range []string{"prefix", "subst", "field", "shape"} {
+			for _, mode := range []string{"prefix", "subst", "field", "shape", "del"} {
 				sp := spaceOf(p, item, mode)
 				if sp == 0 {
 					continue
@@ -55,11 +55,11 @@ func meta() core.Meta {
 		"every exported Unmarshal of messages/, types/, spnego/, gssapi/, pac/, kadmin/, keytab, credentials.CCache, config.NewFromString/NewFromReader and the accessors applications call next":                         "real (thin adapters deliver the damaged bytes)",
 		"client AS/TGS exchange (sendUDP/sendTCP framing, checkForKRBError, reply decoders, ASRep.Verify/DecryptEncPart, GetKeyFromPassword on PA-data, preAuthEType on e-data, TGSRep handling), kpasswd reply handling": "real, fed by a Byzantine reference KDC and a damaging network (flow cases)",
 		"service.VerifyAPREQ / SPNEGO wrapper incl. ticket and authenticator decryption, EncTicketPart/Authenticator/AuthorizationData decoders, PAC processing":                                                          "real, fed by a Byzantine peer holding valid keys (flow cases)",
-		"valid corpus": "MIT reference encodings and captured samples shipped in v8/test/testdata, reference-built SPNEGO tokens, gokrb5-built GSS tokens, live exchanges with refkdc",
+		"valid corpus": "MIT reference encodings and captured samples shipped in v8/test/testdata, keytab format versions 1 and 2, credential cache format versions 1-4, krb5.conf files with every documented value form, GSS wrap tokens with and without rotation, reference-built SPNEGO tokens, gokrb5-built GSS tokens, live exchanges with refkdc",
 	}
 	return core.Meta{
 		Engine: "c04", Property: "C04", Level: "fault_enumeration",
-		Rule:       "evaluation = one delivery: a valid item reaches a real consumer after exactly one fault of the seam: truncation at every offset (all prefixes, always complete), substitution of one byte over a structure-aware alphabet of 10 values per position, corruption of every DER length octet (10 values) resp. every 32-bit and 64-bit window of binary formats, re-encoding of a DER item with one element of its TLV tree (nested encodings included) emptied / one byte shorter / one or four bytes longer / given a leading zero / duplicated / removed and all enclosing lengths recomputed (structurally valid, unusual sizes and multiplicities), and for the flows Byzantine-peer damage before sealing, emptied sequences, lying TCP length prefixes, stalled peers; quick samples the substitution and field spaces of large items, thorough enumerates them; seeded cases (quick 64, thorough 6000 batches of 128/256 deliveries) carry two or three of these faults at once, drawn from the run seed; distinct = distinct (delivery point, item, mode, chunk); non-trivial = every case (each contains damaged deliveries)",
+		Rule:       "evaluation = one delivery: a valid item reaches a real consumer after exactly one fault of the seam: truncation at every offset (all prefixes, always complete), substitution of one byte over a structure-aware alphabet of 10 values per position, corruption of every DER length octet (10 values) resp. every 32-bit and 64-bit window of binary formats, loss of one byte at every offset, re-encoding of a DER item with one element of its TLV tree (nested encodings included) emptied / one byte shorter / one or four bytes longer / given a leading zero / duplicated / removed and all enclosing lengths recomputed (structurally valid, unusual sizes and multiplicities), and for the flows Byzantine-peer damage before sealing, emptied sequences, lying TCP length prefixes, stalled peers; quick samples the substitution and field spaces of large items, thorough enumerates them; seeded cases (quick 64, thorough 6000 batches of 128/256 deliveries) carry two or three of these faults at once, drawn from the run seed; distinct = distinct (delivery point, item, mode, chunk); non-trivial = every case (each contains damaged deliveries)",
 		SweepQuick: q, SweepThorough: t,
 		SeededQuick: 64, SeededThorough: 6000,
 		WorkloadProbes: []string{"deliveries-der", "deliveries-binary", "deliveries-text"},
